@@ -5,7 +5,7 @@ def parseRuleOut (s : String) : RuleOut :=
   match s.splitOn ":" with
   | [p, cs, fl, tw, iv] =>
     let f := fl.toList.map (· == '1')
-    ⟨p.toNat!, nats cs, ⟨f.getD 0 false, f.getD 1 false, f.getD 2 false, f.getD 3 false⟩, b tw, b iv⟩
+    { parent := p.toNat!, children := nats cs, flags := ⟨f.getD 0 false, f.getD 1 false, f.getD 2 false, f.getD 3 false⟩, twoWay := b tw, isVer := b iv }
   | _ => default
 structure UAcc where
   empty : Array Bool := #[]
